@@ -74,7 +74,7 @@ def do_yield(E, st, v, node):
     y = st.ghost.get("$yielded")
     if y is None:
         raise OutOfSubset("yield without a generator model")
-    st.ghost["$yielded"] = C.list_append(E, y, v if not isinstance(v, VObj) else v, st)
+    st.ghost["$yielded"] = C.list_append(E, y, v if isinstance(v, VObj) else VObj(E.to_obj(v)), st)
 
 
 def st_Pass(E, n, st):
